@@ -122,7 +122,7 @@ pub fn specs() -> Vec<PropSpec> {
         },
         PropSpec {
             id: "C14",
-            parts: &[("c14", 640, 6000)],
+            parts: &[("c14", 640, 6000), ("c18", 128, 2000)],
             level: "exploration",
             tags: &["C14"],
             rule: "Each evaluation is one seeded history on a swarm-drawn \
@@ -138,7 +138,12 @@ pub fn specs() -> Vec<PropSpec> {
                 product names (payloads) must not change, numbers never \
                 decrease, and at quiescence manifest and CRL numbers agree \
                 and no validity window excludes the present. \
-                Non-trivial/distinct as for C01.",
+                Non-trivial/distinct as for C01. Part c18: the concurrent scenarios of C18 in which a \
+                forced re-publication request or the due re-publication \
+                task overlaps other requests on other threads: the \
+                state after quiescence must be that of a serial \
+                execution (a maintenance run loses or changes no \
+                content).",
             assumptions: COMMON_ASSUMPTIONS,
         },
         PropSpec {
